@@ -68,8 +68,12 @@ func TestC09Rapid(t *testing.T) {
 						to = "bogus-recipient"
 					}
 					coin := coinOf(rapid.SampledFrom([]string{"uinit", "uusdc"}).Draw(rt, "denom"), int64(rapid.IntRange(0, 100000).Draw(rt, "amt")))
+					if rapid.IntRange(0, 7).Draw(rt, "zeroAmount") == 0 {
+						coin.Amount = math.ZeroInt() // an account-creation deposit; refunded like any other when it fails
+						c.Class("zero-amount-deposit")
+					}
 					var data []byte
-					if hk := rapid.IntRange(0, 9).Draw(rt, "hook"); hk < 4 && to != "bogus-recipient" {
+					if hk := rapid.IntRange(0, 10).Draw(rt, "hook"); (hk < 4 || hk == 10) && to != "bogus-recipient" {
 						// hooks signed by the recipient: a withdrawal inside the hook, optionally followed by a failing message
 						var rcpt henv.User
 						for _, u := range tc.users {
@@ -85,6 +89,14 @@ func TestC09Rapid(t *testing.T) {
 							msgs = append(msgs, banktypes.NewMsgSend(rcpt.Addr, tc.users[0].Addr, sdk.NewCoins(sdk.NewCoin(l2d, math.NewInt(1<<50))))) // fails
 						case 1:
 							msgs = append(msgs, banktypes.NewMsgSend(rcpt.Addr, tc.users[0].Addr, sdk.NewCoins(sdk.NewCoin(l2d, math.OneInt())))) // withdrawal is not the last message
+						case 10:
+							// a long hook: many transfers (five events each) before the withdrawal
+							msgs = nil
+							for k := rapid.IntRange(14, 40).Draw(rt, "manySends"); k > 0; k-- {
+								msgs = append(msgs, banktypes.NewMsgSend(rcpt.Addr, tc.users[0].Addr, sdk.NewCoins(coinOf("stake", 1))))
+							}
+							msgs = append(msgs, opchildtypes.NewMsgInitiateTokenWithdrawal(rcpt.Str, "l1-target-of-the-hook", sdk.NewCoin(l2d, math.OneInt())))
+							c.Class("deposit-with-long-hook-then-withdrawal")
 						case 2:
 							// a single message that writes before it fails: native tokens cannot be withdrawn
 							msgs = []sdk.Msg{opchildtypes.NewMsgInitiateTokenWithdrawal(rcpt.Str, "l1-target-of-the-hook", coinOf("stake", 2))}
